@@ -485,10 +485,91 @@ def site_inside_cond_branch(G, A, ctx):
     ctx.count("site-inside-cond-branch")
 
 
+def site_inside_call(G, A, ctx):
+    """An ADEV site inside a nested jax.jit / jax.checkpoint helper (a repaired defect: the interpreter met the call equation, not the
+    site, and JAX's rule for the call inlined the keyless sampler - flip_enum lost its enumeration, every estimator its strategy, and the
+    seed key was ignored).  Metamorphic twin test: the helper wrapped in jit / checkpoint (also nested in each other, also inside a cond
+    branch) must give, under the same key, the same estimate / grad_estimate / jvp_estimate as the un-wrapped helper; for the
+    enumeration primitives also the exact closed forms.
+    OPEN finding adev-site-in-uninterpreted-call: the same for scan / while_loop bodies and custom_jvp functions (not inlinable)."""
+    import jax
+    import jax.numpy as jnp
+    import jax.random as jr
+
+    def h_enum(p):
+        return jnp.where(A.flip_enum(p), 3.0, 1.0) * p
+
+    def h_rf(p):
+        x = A.normal_reinforce(p, 1.0)
+        return x * x + jnp.where(A.flip_mvd(jax.nn.sigmoid(p)), x, 2.0 * p)
+
+    def h_rp(p):
+        return jnp.sin(A.normal_reparam(p, 0.5)) * p
+
+    # wrapper -> (program with the nested call, the same program without it: key splitting under seed follows the program structure)
+    ident = lambda g: g
+    in_cond = lambda inner: (lambda g: (lambda p: jax.lax.cond(p > 0.0, lambda: inner(g)(p), lambda: p)))
+    wraps = {"jit": (jax.jit, ident), "checkpoint": (jax.checkpoint, ident), "jit(checkpoint)": (lambda g: jax.jit(jax.checkpoint(g)), ident),
+             "jit-in-cond": (in_cond(jax.jit), in_cond(ident))}
+    helpers = {"flip_enum": (h_enum, lambda p: (p * 3 * p + (1 - p) * p, 1 + 4 * p)), "normal_reinforce+flip_mvd": (h_rf, None), "normal_reparam": (h_rp, None)}
+    for hname, (h, exact) in helpers.items():
+        for p in (0.3, 0.7):
+            key = jr.key(17)
+            x = jnp.float32(p)
+            for wname, (w, w_plain) in wraps.items():
+                plain = A.expectation(lambda q, h=h, w_plain=w_plain: w_plain(h)(q))
+                want_v = float(G.seed(plain.estimate)(key, x))
+                want_g = float(G.seed(plain.grad_estimate)(key, x))
+                if exact is not None:
+                    ev, eg = exact(p)
+                    if abs(want_v - ev) > 1e-5 or abs(want_g - eg) > 1e-4:
+                        ctx.property_failure(None, f"{hname} (no nested call): estimate / grad_estimate ({want_v}, {want_g}) != exact ({ev}, {eg})", {"kind": "site-inside-call", "helper": hname, "p": p})
+                case = {"kind": "site-inside-call", "helper": hname, "wrapper": wname, "p": p, "plain": [want_v, want_g]}
+                try:
+                    e = A.expectation(lambda q, w=w: w(h)(q))
+                    got_v = float(G.seed(e.estimate)(key, x))
+                    got_g = float(G.seed(e.grad_estimate)(key, x))
+                    got_v2 = float(G.seed(e.estimate)(jr.key(18), x))
+                    case["wrapped"] = [got_v, got_g]
+                    if abs(got_v - want_v) > 1e-5 * (1 + abs(want_v)) or abs(got_g - want_g) > 1e-4 * (1 + abs(want_g)):
+                        ctx.property_failure(None, f"{hname} inside a nested {wname} helper: estimate / grad_estimate ({got_v:.5f}, {got_g:.5f}) differ from the same program "
+                                             f"without the wrapper under the same key ({want_v:.5f}, {want_g:.5f}) - the site lost its estimator semantics", case)
+                    elif exact is None and got_v2 == got_v:
+                        ctx.property_failure(None, f"{hname} inside a nested {wname} helper: the estimate does not depend on the seed key", case)
+                except Exception as ex:
+                    impl.reset_handlers()
+                    ctx.property_failure(None, f"{hname} inside a nested {wname} helper raised {type(ex).__name__}: {str(ex)[:140]}", case)
+                ctx.case(sample=case if (wname, p) == ("jit", 0.3) else None, nontrivial_key=("site-inside-call", hname, wname, p))
+                ctx.count("site-inside-call")
+    # open finding: bodies the interpreter cannot inline
+    def scan_prog(p):
+        return jax.lax.scan(lambda c, t: (c + h_enum(p), c), 0.0, jnp.arange(2))[0]
+
+    cj = jax.custom_jvp(h_enum)
+    cj.defjvp(lambda pr, t: jax.jvp(h_enum, pr, t))
+    for name, f, ev in (("scan body", scan_prog, lambda p: 2 * (p * 3 * p + (1 - p) * p)), ("custom_jvp function", lambda p: cj(p), lambda p: p * 3 * p + (1 - p) * p)):
+        p = 0.3
+        case = {"kind": "site-inside-uninterpreted-call", "construct": name, "p": p, "exact": ev(p)}
+        try:
+            got = float(G.seed(A.expectation(f).estimate)(jr.key(17), jnp.float32(p)))
+            case["estimate"] = got
+            if abs(got - ev(p)) > 1e-5:
+                # as the code is: the site is sampled once (a single outcome of the enumeration), so the value is one of the per-outcome values
+                per_outcome = {"scan body": [2 * 3 * p, 2 * p, 3 * p + p], "custom_jvp function": [3 * p, p]}[name]
+                ctx.property_failure("adev-site-in-uninterpreted-call", f"flip_enum (zero variance) inside a {name}: estimate {got:.5f} != exact E[f] = {ev(p):.5f}",
+                                     case, matches_asis=any(abs(got - v) < 1e-5 for v in per_outcome))
+        except Exception as ex:
+            impl.reset_handlers()
+            ctx.property_failure("adev-site-in-uninterpreted-call", f"flip_enum inside a {name} raised {type(ex).__name__}: {str(ex)[:120]}", case, matches_asis=False)
+        ctx.case(nontrivial_key=("site-inside-uninterpreted-call", name))
+        ctx.count("site-inside-uninterpreted-call")
+
+
 def run(ctx, audit):
     G = impl.load()
     import genjax.adev as A
     site_inside_cond_branch(G, A, ctx)
+    site_inside_call(G, A, ctx)
     P = programs(G, A)
     thetas = [0.25, 0.5, 0.625] if not ctx.thorough else [0.125, 0.25, 0.375, 0.5, 0.625, 0.75, 0.875]
     for name, spec in P.items():
